@@ -31,6 +31,11 @@ CHECKS = {
         technique="TLA+ spec Plushy.tla: recursive-descent Parse vs an independent block-stack state machine, TLC over all gene sequences <= 6/8; every genome replayed through the real From<Plushy>; num_opens table conformance; random 200-gene genomes trace-validated",
         text="TLC checks on every gene sequence up to 6 (thorough 8) genes over {close, opens 0/1/2} that the two independent definitions of the translation agree, that the result reads depth-first as the genome's instructions, is well formed, and that translation terminates; every one of those genomes is translated by the real code and compared; num_opens() of every instruction the crate lists is compared with the documented table; random genomes of up to 200 genes (deep nesting, trailing opens, runs of closes) are checked by TLC against Parse.",
         note="One-block instructions are distinguished only by variant (three exist). Trusts TLC and the gene<->instruction encoding of the harness."),
+    "C09": dict(
+        cat="model_checking", ref="DESIGN.md §4 C09",
+        technique="TLA+ spec Generation.tla (claim / finish / fail / commit / abort per child, serial and parallel modes); TLC explores every interleaving and failure position for N=3/4 children on 2/3 workers over two steps with atomicity, freshness, own-randomness and liveness properties; real serial_next / par_next runs in rayon pools of 1-16 threads trace-validated against the same actions",
+        text="The one concurrent component is modelled as explicit per-child actions; TLC checks over all schedules and every set of failing calls that the population is never torn, is replaced by exactly N fresh distinct children or left untouched with the error of a failed child, that no two children share a draw and that every step terminates. Real steps (N in {0,1,2,3,8,33}, pools of 1..16 threads, failures at seeded call positions, perturbed schedules, two consecutive steps on one Generation) are recorded by an instrumented child-maker operator and must be behaviours of that specification.",
+        note="Real schedules are sampled, not enumerated (no scheduler hook); exhaustive interleavings are on the model. Own randomness is observed as pairwise-distinct 64-bit draws."),
     "C10": dict(
         cat="model_checking", ref="DESIGN.md §4 C10",
         technique="TLA+ spec Variation.tla (cut points / masks / exchange ranges as explicit choices); TLC exhaustive over lengths 0..4/6 with the property's clauses as invariants; deterministic cases replayed on the real code; random real crossovers trace-validated (TLC infers the hidden cut points); segment-coverage obligation against the TLC-derived child sets",
